@@ -801,6 +801,52 @@ fn templates() -> Vec<(&'static str, Cfg, Vec<Ev>)> {
             Ev::Deliver(usize::MAX, true, true),                    // n3 commits position 2 = 4:401
         ],
     ));
+    // T7: an EMPTY AppendEntries (heartbeat) is subject to the same prev-index/term check as one that
+    // carries entries: a follower holding an uncommitted entry of a deposed leader at the heartbeat's
+    // prev index must refuse it, or it acknowledges and commits its own different entry. A=0 B=1 C=2.
+    // Variant (a): the heartbeat is the real first message of a newly elected leader (next_index =
+    // last+1, nothing to send); variant (b): the same heartbeat injected.
+    for (name, real) in [("heartbeat-over-conflicting-entry", true), ("heartbeat-over-conflicting-entry-injected", false)] {
+        let mut evs = vec![
+            Ev::Timeout(0, true),                                   // A candidate term 1
+            Ev::Inject(0, 1, M::Rv(1, 0, 0, 0), true, true),
+            Ev::Inject(1, 0, M::Rvr(1, true, 1), true, true),       // A leader term 1
+            Ev::Propose(0, 101, true),                              // A: [1:101]
+            Ev::Replicate(0, 1),
+            Ev::Deliver(usize::MAX, true, true),                    // B appends
+            Ev::Deliver(usize::MAX, true, true),                    // A commits 1
+            Ev::Replicate(0, 2),
+            Ev::Deliver(usize::MAX, true, true),                    // C appends
+            Ev::Deliver(usize::MAX, true, true),
+            Ev::Propose(0, 102, true),                              // A: [1:101,1:102], index 2 nowhere else
+            Ev::Timeout(2, true),                                   // C candidate term 2
+            Ev::Inject(2, 1, M::Rv(2, 2, 1, 1), true, true),
+            Ev::Inject(1, 2, M::Rvr(2, true, 1), true, true),       // C leader term 2
+            Ev::Propose(2, 202, true),                              // C: [1:101,2:202]
+            Ev::Replicate(2, 1),
+            Ev::Deliver(usize::MAX, true, true),                    // B appends 2:202
+            Ev::Deliver(usize::MAX, true, true),                    // C commits 2
+            Ev::Replicate(2, 1),
+            Ev::Deliver(usize::MAX, true, true),                    // B learns commit 2
+            Ev::Deliver(usize::MAX, true, true),
+        ];
+        if real {
+            evs.extend(vec![
+                Ev::Timeout(1, true),                               // B candidate term 3
+                Ev::Inject(1, 2, M::Rv(3, 1, 2, 2), true, true),
+                Ev::Inject(2, 1, M::Rvr(3, true, 2), true, true),   // B leader term 3, next_index[A] = 3
+                Ev::Replicate(1, 0),                                // heartbeat prev=(2, term 2), nothing to send
+                Ev::Deliver(usize::MAX, true, true),                // A must refuse: it holds 1:102 at index 2
+                Ev::Deliver(usize::MAX, true, true),
+            ]);
+        } else {
+            evs.extend(vec![
+                Ev::Inject(2, 0, M::Ae(2, 2, 2, 2, 2, vec![]), true, true), // heartbeat prev=(2, term 2), commit 2
+                Ev::Deliver(usize::MAX, true, true),
+            ]);
+        }
+        v.push((name, cfg3(), evs));
+    }
     // T4: the same with 5 voters: two disjoint pairs vote, the fifth voter hears the heartbeat first
     v.push((
         "late-vote-request-after-heartbeat-5",
